@@ -307,6 +307,21 @@ def _check_main(ctx, res) -> None:
                 if in_star:
                     star_calls.append(c)
         if not star_calls:
+            # the star branch may be a private step of the visitor (`new_pairs = self._star_pair_if_selected(import_info)`): its
+            # selector calls are the ones of the star branch, judged on the step's own flow graph
+            for c in calls_in(fv.node, local=False):
+                if is_self_attr(c.func) and c.func.attr.startswith("_") and fv.cls is not None and any(
+                        "is_star_import" in ast.unparse(t) and pol for nd in cfg.node_containing(c) for t, pol in cfg.guards(nd.id)):
+                    step = idx.find_method(fv.cls.qualname, c.func.attr)
+                    if step is not None and any(is_self_attr(x.func, "can_select") for x in calls_in(step.node, local=False)):
+                        cfg = CFG(step.node)
+                        parents = {}
+                        for n in ast.walk(step.node):
+                            for ch in ast.iter_child_nodes(n):
+                                parents[id(ch)] = n
+                        star_calls = [x for x in calls_in(step.node, local=False) if is_self_attr(x.func, "can_select")]
+                        break
+        if not star_calls:
             raise AnalysisError("anchor=FilteringVisitor.visitFromImport: selector call in the star-import branch not found")
         for c in star_calls:
             ok = None
